@@ -1094,17 +1094,26 @@ class LanguageGraph():
             )
             return associations
 
-        if asset['superAsset']:
-            logger.debug('Asset extends another one, fetch the superclass '\
-                'associations for it.')
-            associations.extend(self._get_associations_for_asset_type(asset['superAsset']))
-        assoc_iter = (assoc for assoc in self._lang_spec['associations'] \
-            if assoc['leftAsset'] == asset_type or \
-                assoc['rightAsset'] == asset_type)
-        assoc = next(assoc_iter, None)
-        while (assoc):
-            associations.append(assoc)
-            assoc = next(assoc_iter, None)
+        # The asset and its ancestors, root first (a loop, the inheritance
+        # chain can be longer than the recursion limit allows)
+        inheritance_chain = [asset]
+        while inheritance_chain[-1]['superAsset']:
+            super_asset_name = inheritance_chain[-1]['superAsset']
+            super_asset = next((asset for asset in self._lang_spec['assets']
+                if asset['name'] == super_asset_name), None)
+            if not super_asset:
+                logger.error(
+                    'Failed to find asset type %s when '
+                    'looking for associations.', super_asset_name
+                )
+                break
+            inheritance_chain.append(super_asset)
+
+        for asset in reversed(inheritance_chain):
+            associations.extend(assoc for assoc in \
+                self._lang_spec['associations'] \
+                if assoc['leftAsset'] == asset['name'] or \
+                    assoc['rightAsset'] == asset['name'])
 
         return associations
 
